@@ -61,6 +61,7 @@ S0(P) == [ pc   |-> [a \in Actors(P) |-> 1],
            dmn  |-> [a \in Actors(P) |-> FALSE],       \* daemon
            kt   |-> [a \in Actors(P) |-> -1],          \* kill time (absolute date), -1 = none
            gr   |-> [a \in Actors(P) |-> FALSE],       \* MC granularity: the pending acquisition of a has been granted
+           rv   |-> [a \in Actors(P) |-> -1],          \* MC granularity: outcome chosen for the pending MC_random of a (-1: none)
            susp |-> [a \in Actors(P) |-> FALSE],       \* a is suspended (Actor::suspend): it observes nothing until resumed
            ar   |-> [a \in Actors(P) |-> FALSE],       \* a start record of a is kept by its host (Actor::set_auto_restart)
            aron |-> [a \in Actors(P) |-> FALSE],       \* the current incarnation of a has the auto-restart flag
@@ -467,6 +468,9 @@ HandleMC(P, s, a) ==
                           ELSE Answer(s, a, "false")
     [] k = "sleep" -> Answer(s, a, "ok")
     [] k = "join"  -> IF s.ph[o] = "unborn" THEN Abort(s, a) ELSE Answer(s, a, "ok")
+    \* MC_random(0, o): the checker chooses the outcome (times_considered); the wrappers put it in rv before calling Handle
+    [] k = "rand"  -> IF s.rv[a] < 0 \/ s.rv[a] > o \/ o > 3 THEN Abort(s, a)
+                      ELSE Answer([s EXCEPT !.rv[a] = -1], a, <<"r0", "r1", "r2", "r3">>[s.rv[a] + 1])
     [] OTHER -> HandleRun(P, s, a)        \* trylock, unlock, rel, puta, putd, geta, yield: one simcall in both modes
 
 \* Pre: s.ph[a] \in {"run","issued"} and s.pc[a] <= NOps(P,a) and ~s.aborted
@@ -475,6 +479,9 @@ Handle(P, s, a) == IF P.gran = "mc" THEN HandleMC(P, s, a) ELSE HandleRun(P, s, 
 \* ------------------------------------------------------------------ time
 Ready(s, a)     == s.ph[a] \in {"run", "issued", "dying", "exiting"} \/ (s.ph[a] = "answered" /\ ~s.susp[a])
 \* MC granularity: an actor can move iff its next transition is enabled (a pending *_WAIT may be disabled)
+\* outcomes the checker may choose for the next transition of a (one, except for MC_random)
+Choices(P, s, a) == IF s.pc[a] <= NOps(P, a) /\ Cur(P, s, a).op = "rand" THEN 0..Cur(P, s, a).o ELSE {0}
+Chosen(P, s, a, v) == IF s.pc[a] <= NOps(P, a) /\ Cur(P, s, a).op = "rand" THEN [s EXCEPT !.rv[a] = v] ELSE s
 MoreSub(P, s, a) == s.ph[a] = "answered" /\ s.res[a] = "ok" /\ s.sub[a] < NSubP(P, Cur(P, s, a))
 NextSub(P, s, a) == [s EXCEPT !.sub[a] = @ + 1, !.res[a] = "none", !.rval[a] = 0, !.ph[a] = "run"]
 CanMoveMC(P, s, a) == LET b == IF MoreSub(P, s, a) THEN NextSub(P, s, a) ELSE s IN
